@@ -111,10 +111,60 @@ impl Property for C14 {
         let Some(tc) = load_wellformed(&mut out, "c14", &text, &built.sigs) else {
             return out;
         };
-        let real = run_real(&tc, &built.sigs, &spec, &RunOpts { max_next: next_budget(&t), continue_after_error: true, ..Default::default() });
-        if let Some((k, m)) = trace_diff(&t, &real, Projection::VIRTUAL) {
-            let key = if k.starts_with("panic:") { k } else { format!("c14:{k}") };
-            out.fail(key, m);
+        let real = run_real(&tc, &built.sigs, &spec, &RunOpts { max_next: next_budget(&t), fuel: fuel_for(t.facts.steps), continue_after_error: true, ..Default::default() });
+        // Walk both traces in lock-step. Only the virtual entries (and error items caused by
+        // virtual signals) are this property's; as soon as anything else differs from the
+        // reference - inputs, ordinary expected/output values, row count, other errors - the
+        // comparison stops quietly: that is some other property's business.
+        if let Some(RealItem::Panic(p)) = &real.ctor {
+            out.fail(p.key(), format!("constructor panicked: {p}"));
+            return out;
+        }
+        if real.ctor.is_none() {
+            for (i, item) in t.items.iter().enumerate() {
+                let Some(ritem) = real.items.get(i) else { break };
+                match (item, ritem) {
+                    (ri::RiItem::Row(a), RealItem::Row(b)) => {
+                        let non_virtual = Projection { inputs: true, expected: true, outputs: true, checkedness: true, virtual_only: false };
+                        // compare the non-virtual part first (virtual entries masked out)
+                        let mut a2 = a.clone();
+                        a2.outputs.retain(|o| !o.is_virtual);
+                        let mut b2 = b.clone();
+                        b2.outputs.retain(|o| !o.is_virtual);
+                        if row_diff(&a2, &b2, non_virtual).is_some() {
+                            out.class("rows-diverged");
+                            break;
+                        }
+                        if a.checked && b.outputs.len() != a.outputs.len() {
+                            out.fail(
+                                "c14:virtual-entry-count",
+                                format!("item {i}: the row has {} output entries, {} are due ({} virtual)", b.outputs.len(), a.outputs.len(), a.outputs.iter().filter(|o| o.is_virtual).count()),
+                            );
+                            break;
+                        }
+                        if let Some(d) = row_diff(a, b, Projection::VIRTUAL) {
+                            out.fail("c14:virtual-entry", format!("item {i}: {d}\n reference: {}\n real:      {}", fmt_ri_row(a), ritem.short()));
+                            break;
+                        }
+                    }
+                    (ri::RiItem::Hazard { after_call: true, .. }, RealItem::RuntimeErr(_)) => {}
+                    (ri::RiItem::Hazard { hazard, after_call: true }, RealItem::Row(_)) => {
+                        out.fail(
+                            "c14:row-instead-of-error",
+                            format!("item {i}: a virtual signal reads a Z/X output in this call ({hazard:?}); the row must be an error item, got {}", ritem.short()),
+                        );
+                        break;
+                    }
+                    (_, RealItem::Panic(p)) => {
+                        out.fail(p.key(), format!("item {i} panicked: {p}"));
+                        break;
+                    }
+                    _ => {
+                        out.class("rows-diverged");
+                        break;
+                    }
+                }
+            }
         }
         let checked = t.items.iter().filter(|i| matches!(i, ri::RiItem::Row(r) if r.checked)).count();
         out.nontrivial = checked >= 2 || shadow || matches!(&last_h, Some((_, true)));
